@@ -117,6 +117,32 @@ package common
 //@   property C16
 //@   ensures pc != nil && pc.parent == nil && pc.trustedParentCount == 0 && len(pc.idx2pub) == 0 && pc_local(pc.pub2idx, pc.idx2pub, pc.trustedParentCount)
 
+// NewPubkeyCache: a root cache built from a registry.  The registry's keys are distinct (the state transition never
+// appends a validator whose key is already known: ProcessDeposit tops up instead) - stated as the precondition
+// `distinct`; without it a later duplicate would overwrite pub2idx and the inverse-map invariant could not hold.
+// The result is a well-formed root handle holding exactly the registry's keys in registry order.
+//@ ufun v_pub_err(ValI) bool
+//@ ufun v_pub(ValI) PubkeyT
+//@ func (v Validator) Pubkey() (r, err)
+//@   trusted
+//@   opt noalloc
+//@   ensures (err != nil) == v_pub_err(v)
+//@   ensures err == nil ==> r == v_pub(v)
+//@ func NewPubkeyCache(vals) (pc, err)
+//@   property C16
+//@   use reg_len_nonneg
+//@   requires vals != nil
+//@   requires distinct: forall a, b :: {v_pub(reg_val(vals, a)), v_pub(reg_val(vals, b))} 0 <= a && a < b && b < reg_len(vals) ==> v_pub(reg_val(vals, a)) != v_pub(reg_val(vals, b))
+//@   ensures root: err == nil ==> pc != nil && pc.parent == nil && pc.trustedParentCount == 0 && len(pc.idx2pub) == reg_len(vals)
+//@   ensures wf: err == nil ==> pc_local(pc.pub2idx, pc.idx2pub, 0)
+//@   ensures content: err == nil ==> (forall k :: {pc.idx2pub[k]} 0 <= k && k < reg_len(vals) ==> pc.idx2pub[k].Compressed == v_pub(reg_val(vals, k)))
+//@   ensures failed: (reg_len_err(vals) ==> err != nil) && (!reg_len_err(vals) && (exists k :: 0 <= k && k < reg_len(vals) && (reg_val_err(vals, k) || v_pub_err(reg_val(vals, k)))) ==> err != nil)
+//@   loop 1
+//@     invariant valCount == reg_len(vals) && pc != nil && pc.parent == nil && pc.trustedParentCount == 0 && i == len(pc.idx2pub) && 0 <= i && i <= valCount
+//@     invariant pc_local(pc.pub2idx, pc.idx2pub, 0)
+//@     invariant forall k :: {pc.idx2pub[k]} 0 <= k && k < i ==> pc.idx2pub[k].Compressed == v_pub(reg_val(vals, k))
+//@     invariant forall k :: {reg_val(vals, k)} {reg_val_err(vals, k)} 0 <= k && k < i ==> !reg_val_err(vals, k) && !v_pub_err(reg_val(vals, k))
+
 // (The returned *CachedPubkey may be an interior pointer into idx2pub or come
 // from the parent: the engine cannot merge those shapes, so the pointer itself
 // is not described; see DESIGN.md.)
